@@ -97,3 +97,16 @@ def normalise_float(a, b):
     prod = -0.5 * np.einsum('ij,kj->ik', a, b)
     prod /= np.sqrt(np.einsum('ij,ij->i', a, a)).reshape(-1, 1)
     return prod
+
+
+def scale_copy(x):
+    out = x.copy()
+    for i in range(out.shape[0]):
+        out[i] = (out[i] - out[i].min()) / (out[i].max() - out[i].min())
+    return out
+
+
+def clip_copy(x):
+    out = x.copy()
+    out[out < 0] = 0
+    return out
